@@ -22,5 +22,5 @@ CONSTANTS
   ClientNodes = {"n1"}
   Cached0 = {}
 INVARIANT Inv
-PROPERTY CommitConsumes CacheOnlyVerified TasksOnlyGrow CleanupOnlyCandidates RemovalOnlyByDelete
+PROPERTY CommitConsumes CacheOnlyVerified TasksOnlyGrow CleanupOnlyCandidates RemovalOnlyByDelete ReplicateTruthful
 CHECK_DEADLOCK FALSE
